@@ -292,6 +292,7 @@ int main(int argc, char **argv) {
                     if (op[0] == 'k') { pr_key(kb, arr->data[i]); printf("%s%s", i ? " " : "", kb); }
                     else if (op[0] == 'v') { pr_val(vb, arr->data[i]); printf("%s%s", i ? " " : "", vb); }
                     else {
+                        if (!janet_checktype(arr->data[i], JANET_TUPLE) || janet_tuple_length(janet_unwrap_tuple(arr->data[i])) != 2) { printf("%s?", i ? " " : ""); continue; }
                         const Janet *tp = janet_unwrap_tuple(arr->data[i]);
                         pr_key(kb, tp[0]); pr_val(vb, tp[1]); printf("%s%s=%s", i ? " " : "", kb, vb);
                     }
